@@ -338,3 +338,23 @@ Inductive via2 := ViaFromMesh | ViaCarry.
 (* M = what refinement sees of a mesh (vertex connectivity and tags); lin = refinement by the first-order class *)
 Definition refine_second {M} (v : via2) (lin : M -> M) (drop_tags : M -> M) (m : M) : M :=
   match v with ViaCarry => lin m | ViaFromMesh => lin (drop_tags m) end.
+
+(* ------------------------------------------------------------------ Mesh.refined: the dispatch on the argument *)
+(* what a caller may pass: a scalar (Python / NumPy integer; a bool is a scalar), an index collection, a boolean mask *)
+Inductive rarg : Type :=
+| RScalar (n : Z)
+| RIndex (ix : list nat)
+| RMask (mask : list bool).
+
+(* np.nonzero(mask)[0] *)
+Definition nonzero (mask : list bool) : list nat :=
+  filter (fun k => nth k mask false) (seq 0 (length mask)).
+
+(* M = the mesh; [ustep] = one pass of the uniform loop body (m._uniform() and the generic subdomain fallback);
+   [adapt ix] = m._adaptive(ix) *)
+Definition refined_dispatch {M : Type} (ustep : M -> M) (adapt : list nat -> M -> M) (arg : rarg) (m : M) : M :=
+  match arg with
+  | RScalar n => Nat.iter (Z.to_nat n) ustep m        (* for _ in range(n): n <= 0 -> the mesh itself *)
+  | RIndex ix => adapt ix m
+  | RMask b => adapt (nonzero b) m
+  end.
